@@ -145,6 +145,34 @@ func init() {
 					out = append(out, c19Spec{Base: e1Base{Soil: "custom", Hor: []proj.Horizon{h}, GW: 99, InitW: 0.6, InitN: 10, ET: 3}, Word: []string{around, "mild", "mild", "mild"}, TBase: 8.7, MissT: 1})
 				}
 			}
+			// contrasting horizons: a loose (or dense) topsoil over a subsoil of another density class, each dry or moist. The
+			// stability of the explicit scheme depends on the most conductive layer, wherever in the profile it lies.
+			for _, tc := range []int{1, 2, 3, 5} {
+				for _, sc := range []int{1, 3, 4, 5} {
+					if tc == sc {
+						continue
+					}
+					for _, topLow := range []int{1, 3} {
+						for _, subLow := range []int{6, 20} {
+							for wi, iv := range [][]float64{{0.03, 0.35}, {0.30, 0.05}, {0.03, 0.05}, {0.30, 0.35}} {
+								if tier == "quick" && (tc+sc+topLow+subLow/6+wi)%2 == 1 && !(tc <= 2 && wi == 0) {
+									continue
+								}
+								hor := []proj.Horizon{{Tex: "SS", Lower: topLow, BD: tc, Corg: 0.8, CN: 10}, {Tex: "SL4", Lower: subLow, BD: sc, Corg: 0.3, CN: 10}}
+								base := e1Base{Soil: "custom", Hor: hor, GW: 99, InitVol: iv, InitN: 10, ET: 3}
+								out = append(out, c19Spec{Base: base, Alpha: c19Alpha[:5], D: 2, TBase: 8.7})
+								for _, alt := range [][]string{{"hot-high-rad", "deep-frost"}, {"cold-high-rad", "hot"}} {
+									var w []string
+									for i := 0; i < 30; i++ {
+										w = append(w, alt[i%2])
+									}
+									out = append(out, c19Spec{Base: base, Word: w, TBase: 8.7})
+								}
+							}
+						}
+					}
+				}
+			}
 			// soil tables in which only some horizons carry a measured density (the others fall back to their class),
 			// capacity cells empty or written as 0
 			for _, zero := range []bool{false, true} {
